@@ -232,6 +232,12 @@ class C05(Engine):
 						t['m'] = m
 					cases.append({'pool': pool, 'kind': 'truncation', 'ops': [op_run(), t, op_run()]})
 				cases.append({'pool': pool, 'kind': 'truncation', 'ops': [op_run(), {**t, 'off': ('frac', 5000), 'zeros': True}, op_run()]})
+		# record-boundary sweep of the symbols / tree files of the modules with the richest tables (free for single-document formats)
+		for which in ((0,) if quick else (0, 1, 3)):
+			pool = pools.fixed_pool(which)
+			mods = pools.core(pool)
+			sweeps = [{'op': 'sweep', 'cls': cls, 'm': m, 'cap': 30 if quick else 400} for cls in ('symbols', 'tree') for m in ((mods[0], mods[-1]) if quick else mods)]
+			cases.append({'pool': pool, 'kind': 'sweep', 'ops': [op_run()] + sweeps + ([] if quick else [{'op': 'sweep', 'cls': 'parser', 'cap': 16}])})
 		return cases
 
 	def generate(self, rng: random.Random, index: int) -> dict[str, Any]:
